@@ -148,6 +148,50 @@ assume_doc("GCENUM", "BOUNDED, not proved: 35 events (5 kind classes x 7 expirat
            "the LMDB side runs on the in-memory stand-in")
 
 
+def ack_check(prop):
+    """extra check for C06: OK=true => retrievable once writers are idle, OK=false => no trace, well-formed => not refused; both backends"""
+
+    def check(tier, seed):
+        from .index import KNOWN_FINDINGS
+        t0 = time.time()
+        outdir = os.path.join(os.environ.get("PYVC_OUT_DIR", ROOT), "replays")
+        os.makedirs(outdir, exist_ok=True)
+        res = {"name": "acknowledgement-agrees-with-the-store", "kind": "bounded stand-in (real add_event + real query path, sqlite / in-memory lmdb stand-in)",
+               "status": "ok", "evaluations": 0, "distinct": 0, "known_lines": [], "exhaustive": True, "samples": [],
+               "rule": "one case per awkward event (25: long / bare / integer / multi-byte tags, deletion requests naming nothing or malformed ids, "
+                       "timestamp and kind edges, replaceable kinds, ephemeral) per backend; all distinct"}
+        listed = {f["bounded_class"]: f for f in KNOWN_FINDINGS if f["property"] == prop and f.get("bounded_class") and f.get("status", "open") == "open"}
+        for be in ("sql", "kv"):
+            out = os.path.join(outdir, "%s_ack_%s.json" % (prop, be))
+            env = dict(os.environ)
+            env["PYTHONPATH"] = ROOT
+            p = subprocess.run([sys.executable, os.path.join(ROOT, "bounded", "ack_enum.py"), "--backend", be, "--json", out], capture_output=True, text=True, env=env, timeout=600)
+            if p.returncode != 0 or not os.path.exists(out):
+                raise RuntimeError("ack_enum %s failed: %s" % (be, (p.stdout + p.stderr)[-1500:]))
+            r = json.load(open(out))
+            res["evaluations"] += r["cases"]
+            res["distinct"] += r["cases"]
+            res["samples"] += r["samples"][:2]
+            for c in r["failure_classes"]:
+                f = listed.get(c["class"]) if (c["class"] and be == "kv" and c["kind"] == "acknowledged-true-but-not-retrievable") else None
+                if f is not None:
+                    continue      # reported by the finding's own witness line
+                res["status"] = "violation"
+                res.setdefault("failures", []).append({"kind": c["kind"], "count": c["count"], "example": dict(c["example"], backend=be)})
+        res["seconds"] = round(time.time() - t0, 1)
+        return res
+
+    check.__name__ = "ack_%s" % prop
+    return check
+
+
+assume_doc("ACKENUM", "BOUNDED, not proved: 25 awkward events per backend submitted to one fresh store each; the LMDB side runs on the in-memory stand-in "
+           "(key limit 511 bytes as in LMDB's default build)")
+assume_doc("COHENUM", "BOUNDED, not proved: every history of up to 4 (thorough: 5) operations out of 21 (17 signed events, 3 direct deletions, one collector "
+           "pass) on the in-memory lmdb stand-in, an engine error injected at every put/delete of the last operation of histories up to 3 (4); "
+           "integer tag values, duplicate tags, NUL, 600-byte values and a multi-byte tag name are in the pool, booleans / floats are not (admission refuses them)")
+
+
 def roles_check(prop):
     """extra check for C14: the role table round trip (assign / re-assign / revoke / read) on the real SQL storage"""
 
@@ -222,7 +266,8 @@ def script_check(prop, script, name, kind, rule, assumption=None, args=()):
         out = os.path.join(outdir, "%s_%s.json" % (prop, name))
         env = dict(os.environ)
         env["PYTHONPATH"] = ROOT
-        p = subprocess.run([sys.executable, os.path.join(ROOT, "bounded", script), "--json", out] + list(args), capture_output=True, text=True, env=env, timeout=900)
+        env["VERIF_TIER"] = tier
+        p = subprocess.run([sys.executable, os.path.join(ROOT, "bounded", script), "--json", out] + list(args), capture_output=True, text=True, env=env, timeout=3000)
         if p.returncode != 0 or not os.path.exists(out):
             raise RuntimeError("%s failed: %s" % (script, (p.stdout + p.stderr)[-1500:]))
         r = json.load(open(out))
